@@ -374,8 +374,18 @@ pub fn explore(
     // Each stack entry: (number of options, chosen index, choosing > 0 is a preemption).
     let mut stack: Vec<(usize, usize, bool)> = Vec::new();
     let mut executions = 0;
+    // The schedule about to be executed is written here first, so that a
+    // crash of the code under test can be attributed to a schedule.
+    let mut current = std::env::var_os("SCHED_CURRENT").and_then(|p| std::fs::File::create(p).ok());
     loop {
         let prefix: Vec<usize> = stack.iter().map(|c| c.1).collect();
+        if let Some(f) = current.as_mut() {
+            use std::io::{Seek, Write};
+            let text = format!("{prefix:?}\n");
+            let _ = f.seek(std::io::SeekFrom::Start(0));
+            let _ = f.write_all(text.as_bytes());
+            let _ = f.set_len(text.len() as u64);
+        }
         let (trace, go_on) = run(prefix);
         executions += 1;
         if !go_on || executions >= max_executions {
